@@ -122,7 +122,8 @@ theorem finish_counts (r : RState) (opt : Option EOpt) (tsig : Option Tsig) (pad
     | none => simp at h5; subst h5; exact ⟨rfl, rfl, rfl⟩
     | some o =>
       simp only at h5
-      unfold RState.addOpt at h5
+      replace h5 := addOpt_core_of_ok h5
+      unfold RState.addOptCore at h5
       split at h5
       · have h6 := stepOk_addRRset h5
         have := addRRset_count _ _ _ _ h6
